@@ -34,6 +34,7 @@ type Ans struct {
 	IP    []byte
 	Name  string
 	HTTPS *HTTPS
+	Raw   []byte // RDATA of a record type the generator does not know (TXT, RRSIG, ...)
 }
 
 type Resp struct {
@@ -234,6 +235,8 @@ func BuildResponse(id uint16, qname string, qtype int, r Resp, compress bool) []
 			if len(h.V6) > 0 {
 				param(6, gen.Cat(h.V6...))
 			}
+		default:
+			rd = a.Raw
 		}
 		b = append(b, gen.LP16(rd)...)
 	}
